@@ -28,7 +28,11 @@ RULE = (
     'float64/float32/int64 = levels + grid noise + ramps/zigzags; atol equal to an occurring '
     'slope exactly, +-1 ulp, between, 0, huge, in the derivative unit or a scaled unit; '
     'min_n_points 1..n as int / numpy int / unit-less Variable; int64 coordinates up to both ends of the '
-    'int64 range), followed by collapse_plateaus '
+    'int64 range; half of the series carry attachments under names that collide with every name the '
+    'function uses or creates - the output dimension (default, user-given, equal to the data dimension or '
+    'to an existing coordinate), argument/temporary/constituent names: per-point coordinates of 9 dtype '
+    'kinds incl. variances/strings/vectors/NaN, scalar coordinates, per-point and scalar masks; every shard '
+    'also runs the enumerated collision matrix on a clean series), followed by collapse_plateaus '
     'on what was returned and filter_in_phase on the collapsed values, plus direct '
     'filter_in_phase calls (frequencies 0, tiny, n*ref, ref/n perturbed by {0,0.1,0.49,2,10} x '
     'rtol, either sign of f and ref, float64/float32/int64) and direct collapse_plateaus calls '
@@ -44,6 +48,12 @@ ASSUMPTIONS = [
     '|ref/f - n| < rtol (non-zero integer n); elements kept only through n = 0 on the divisor '
     'side (|ref/f| < rtol) are counted as ambiguous, not judged',
     'RuntimeError from find_plateaus (drift guard) is an allowed outcome and is not judged',
+    '"its points and coordinates unchanged" covers every per-point coordinate and mask of the input whatever '
+    'its name (bitwise values, variances, unit, dtype) and the scalar coordinates/masks of the series (kept on '
+    'the result or in the bins); a SCALAR coordinate named like the output dimension is replaced by the plateau '
+    'index by the code - the documentation is silent on it, counted as ambiguous, not judged',
+    'collapse_plateaus with coord equal to the plateau dimension cannot return a [low, high] pair per plateau '
+    '(out of domain, counted)',
 ]
 TECHNIQUE = ('runtime monitors (sys.monitoring) on the returns of find_plateaus, collapse_plateaus, '
              'filter_in_phase, direct and chained; segmentation / interval / in-phase reference models')
@@ -68,6 +78,10 @@ FINDING_PREDICATES: dict = {
     'filter_in_phase.zeroth_divisor_kept': lambda v: (
         v.get('kind') == 'filter_kept_zeroth_divisor'
         and v.get('keys', {}).get('relation') == 'zeroth_divisor'),
+    # only reachable with JUDGE_SCALAR_COORD_NAMED_LIKE_OUTPUT_DIM = True
+    'find_plateaus.scalar_coord_named_like_output_dim_replaced': lambda v: (
+        v.get('kind') == 'find_scalar_coord_lost'
+        and v.get('keys', {}).get('name_is') in ('output_dim', 'default_output_dim')),
 }
 
 Y_KINDS = ('float64', 'float32', 'int64')
@@ -300,16 +314,106 @@ def judge_find(ctx, args, res, exc, diag, origin):
         ctx.violation('find_points_differ', 'variances of the points are not carried unchanged', case,
                       stage='content', part='variances', **keys)
         return
-    for name, co in data.coords.items():
-        if co.dims != (dim,):
-            continue
-        bc = buf.coords.get(name)
-        if bc is None or bc.unit != co.unit or bc.dtype != co.dtype or \
-                _b(np.asarray(bc.values)[idx_obs]) != _b(np.asarray(co.values)[idx_exp]):
-            ctx.violation('find_coords_differ',
-                          f'coordinate {name!r} of the points is not carried unchanged into the bins', case,
-                          stage='content', part='coord', **keys)
-            return
+    try:
+        _judge_carried(ctx, data, res, buf, dim, pdim, idx_obs, idx_exp, case, keys)
+    except Exception:  # noqa: BLE001
+        ctx.oracle_error('C19 find_plateaus carried coordinates')
+
+
+# "each holding its points and coordinates unchanged": everything that is attached to a point of the
+# input (its coordinates of any name and dtype, their variances, its mask flags) is attached to the same
+# point inside its bin; what is attached to the series as a whole (scalar coordinates / masks) is still
+# attached to the result (outside or inside the bins).  No name is special: the names the function itself
+# uses or creates (the output dimension - default or user-given -, temporaries) may occur in the input.
+JUDGE_SCALAR_COORD_NAMED_LIKE_OUTPUT_DIM = False
+_BITWISE = ('float64', 'float32', 'int64', 'int32', 'bool', 'datetime64', 'vector3')
+
+
+def _same_elements(a, ia, b, ib) -> bool:
+    if a.unit != b.unit or a.dtype != b.dtype or (a.variances is None) != (b.variances is None):
+        return False
+    va, vb = np.asarray(a.values)[ia], np.asarray(b.values)[ib]
+    if str(a.dtype) in _BITWISE:
+        if va.shape != vb.shape or _b(va) != _b(vb):
+            return False
+        if a.variances is not None and _b(np.asarray(a.variances)[ia]) != _b(np.asarray(b.variances)[ib]):
+            return False
+        return True
+    return va.shape == vb.shape and bool(np.all(va == vb))
+
+
+def _name_class(name, dim, pdim, explicit):
+    if name == pdim:
+        return 'output_dim' if explicit else 'default_output_dim'
+    if name == dim:
+        return 'data_dim'
+    return 'other'
+
+
+def _judge_carried(ctx, data, res, buf, dim, pdim, idx_obs, idx_exp, case, keys):
+    explicit = pdim != 'plateau'
+    case['coords'] = {str(k): [list(v.dims), str(v.dtype)] for k, v in data.coords.items()}
+    case['masks'] = {str(k): list(v.dims) for k, v in data.masks.items()}
+    case['plateau_dim'] = pdim
+    if pdim == dim:
+        ctx.hit('plateau_dim equal to the data dimension')
+    for what, src, dst_in, dst_out in (('coord', data.coords, buf.coords, res.coords),
+                                       ('mask', data.masks, buf.masks, res.masks)):
+        for name, co in src.items():
+            ncls = _name_class(name, dim, pdim, explicit)
+            if co.dims == (dim,) and co.shape == data.shape and co.bins is None:
+                bc = dst_in[name] if name in dst_in else None
+                if bc is None or bc.dims != (dim,) or not _same_elements(bc, idx_obs, co, idx_exp):
+                    how = 'missing from the bins' if bc is None else 'not carried unchanged into the bins'
+                    ctx.violation('find_coords_differ' if what == 'coord' else 'find_masks_differ',
+                                  f'{what} {name!r} ({co.dtype}) of the points is {how} '
+                                  f'(output dimension {pdim!r}, data dimension {dim!r})', case,
+                                  stage='content', part=what, name_is=ncls,
+                                  lost=bc is None, **keys)
+                    return
+                if name != dim:
+                    if what == 'coord':
+                        if ncls == 'default_output_dim':
+                            ctx.hit('aux coordinate named like the default output dimension')
+                        elif ncls == 'output_dim':
+                            ctx.hit('aux coordinate named like a user-given plateau_dim')
+                        else:
+                            ctx.hit('aux coordinate carried')
+                        if str(co.dtype) not in _BITWISE[:6]:
+                            ctx.hit('aux coordinate of non-numeric dtype')
+                        if co.variances is not None:
+                            ctx.hit('aux coordinate with variances')
+                ctx.count(f'find.carried:{what}:per-point')
+                if what == 'mask':
+                    ctx.hit('per-point mask carried')
+                    if ncls != 'other':
+                        ctx.hit('mask named like the output or data dimension')
+            elif co.ndim == 0 and co.bins is None:
+                cands = [d[name] for d in (dst_out, dst_in) if name in d]
+                found = any(c.ndim == 0 and sc.identical(c, co, equal_nan=True) for c in cands)
+                if not found and name in dst_in and dst_in[name].dims == (dim,) and len(idx_obs):
+                    b = dst_in[name]
+                    found = all(sc.identical(b[dim, int(j)], co, equal_nan=True) for j in idx_obs[:50])
+                if found:
+                    ctx.count(f'find.carried:{what}:scalar')
+                    ctx.hit('scalar coordinate carried' if what == 'coord' else 'scalar mask carried')
+                    continue
+                if what == 'coord' and name == pdim and not JUDGE_SCALAR_COORD_NAMED_LIKE_OUTPUT_DIM:
+                    # the result needs a coordinate-free name for its dimension; the documentation does not
+                    # say what happens to a series-wide coordinate of that name (the code replaces it)
+                    ctx.count('ambiguous:find.scalar_coord_named_like_output_dim.replaced')
+                    continue
+                ctx.violation('find_scalar_coord_lost' if what == 'coord' else 'find_scalar_mask_lost',
+                              f'scalar {what} {name!r} of the series is neither on the result nor in the bins '
+                              f'unchanged (output dimension {pdim!r})', case,
+                              stage='content', part='scalar_' + what, name_is=ncls, **keys)
+                return
+            else:
+                ctx.count(f'find.out_of_domain:{what} that is neither per-point nor scalar (not judged)')
+    extra = [str(k) for k in buf.coords.keys() if k not in data.coords]
+    if extra:
+        ctx.count('find.bins_hold_coordinates_the_input_did_not_have')
+        case['extra_bin_coords'] = extra[:5]
 
 
 def _min_cls(min_n, n, mn):
@@ -376,6 +480,10 @@ def judge_collapse(ctx, args, res, exc, diag, origin):
         xk, yk = _dtype_name(ec), _dtype_name(buf)
         if xk not in X_KINDS or yk not in Y_KINDS:
             ctx.count('collapse.out_of_domain:dtype')
+            return
+        if cname == pl.dim:
+            # the result cannot hold a [low, high] pair per plateau under the name of its own dimension
+            ctx.count('collapse.out_of_domain:coord named like the plateau dimension')
             return
         if len(buf.masks) or len(pl.masks):
             ctx.count('collapse.out_of_domain:masks')  # mean of masked points is not defined by the property
@@ -930,6 +1038,137 @@ def gen_series(rng):
     return da, kw, meta
 
 
+# Names the function uses or creates, as far as its signature, documentation and result show them
+# (output dimension, arguments, the constituents of binned data, likely names of temporaries), plus the
+# names the generator uses for dimensions.  Any of them may be the name of a coordinate or mask of the
+# input; the effective output dimension and the data dimension are added per case.
+USED_NAMES = ['plateau', 'plateau_dim', 'plateaus', 'data', 'atol', 'min_n_points', 'group', 'group_id',
+              'group_label', 'groups', 'to_group', 'derivative', 'begin', 'end', 'dim', 'size', 'sizes',
+              'event', 'index', 'mean', 'time', 't', 'x', 'pulse', 'custom', 'p', 'plateau_2', 'values',
+              'variances', 'coord', 'mask', '']
+AUX_KINDS = ('float64', 'float64+var', 'float32', 'int64', 'int32', 'bool', 'datetime64', 'string', 'vector3')
+
+
+def _aux_values(rng, kind, dim, n):
+    """A per-point auxiliary coordinate; values never bin-edge, in no particular order."""
+    if kind in ('float64', 'float32'):
+        v = rng.normal(size=n) * 10.0 ** int(rng.integers(-3, 4))
+        if rng.random() < 0.2:
+            v[rng.integers(0, n)] = np.nan
+        if rng.random() < 0.2:
+            v[rng.integers(0, n)] = -0.0
+        return sc.array(dims=[dim], values=v.astype(kind), unit=_pick(rng, ['K', 'Hz', 'dimensionless', None]),
+                        dtype=kind)
+    if kind == 'float64+var':
+        return sc.array(dims=[dim], values=rng.normal(size=n), variances=rng.random(n) + 0.1, unit='Hz')
+    if kind in ('int64', 'int32'):
+        return sc.array(dims=[dim], values=rng.integers(-5, 6, size=n), unit=_pick(rng, [None, 'dimensionless', 's']),
+                        dtype=kind)
+    if kind == 'bool':
+        return sc.array(dims=[dim], values=rng.random(n) < 0.5, unit=None)
+    if kind == 'datetime64':
+        u = _pick(rng, DT_UNITS)
+        return sc.array(dims=[dim], values=(1_600_000_000 + rng.integers(-1000, 1000, size=n)).astype(
+            f'datetime64[{u}]'), unit=u)
+    if kind == 'string':
+        return sc.array(dims=[dim], values=[_pick(rng, ['a', 'bc', '', 'plateau', 'x' * 20]) + str(i % 3)
+                                            for i in range(n)], unit=None)
+    return sc.vectors(dims=[dim], values=rng.normal(size=(n, 3)), unit='m')
+
+
+def _scalar_aux(rng):
+    return _pick(rng, [sc.scalar(1.5, unit='m'), sc.scalar(7, unit=None), sc.scalar('run 12'),
+                       sc.scalar(float('nan'), unit='K'), sc.scalar(2.0, variance=0.5, unit='Hz'),
+                       sc.vector([0.0, 0.0, 1.0], unit='m'),
+                       sc.datetime('2024-01-01T00:00:00', unit='s')])
+
+
+def decorate(rng, da, kw, p_any=0.5):
+    """Attach auxiliary per-point coordinates, scalar coordinates and masks to a series, under names that
+    collide with every name find_plateaus uses or creates, and choose the output dimension among the
+    names that exist in the input.  Returns (da, kw, description); the series itself is untouched."""
+    if rng.random() >= p_any:
+        return da, kw, 'plain'
+    da = da.copy()
+    kw = dict(kw)
+    dim, n = da.dim, da.sizes[da.dim]
+    r = rng.random()
+    if 'plateau_dim' not in kw and r < 0.30:
+        kw['plateau_dim'] = _pick(rng, ['custom', 'p', 'time', 't', 'data', 'group', 'x'])
+    elif r < 0.36:
+        kw['plateau_dim'] = dim
+    pdim = kw.get('plateau_dim', 'plateau')
+    pool = [pdim, pdim, pdim, 'plateau', dim + '_', *USED_NAMES]
+    tags = []
+    taken = set(da.coords.keys())
+    # a series-wide (scalar) coordinate / mask
+    if rng.random() < 0.25:
+        name = _pick(rng, pool + ['scalar', 'sample'])
+        if name not in taken and name != dim:
+            da.coords[name] = _scalar_aux(rng)
+            taken.add(name)
+            tags.append('scalar')
+    # per-point coordinates
+    for _ in range(int(_pick(rng, [0, 1, 1, 2, 3, 6]))):
+        name = _pick(rng, pool)
+        if name in taken or name == dim:
+            continue
+        da.coords[name] = _aux_values(rng, _pick(rng, AUX_KINDS), dim, n)
+        taken.add(name)
+        tags.append('aux')
+    # masks (their names live in a namespace of their own: the data dimension is a legal name)
+    if rng.random() < 0.22:
+        for _ in range(int(_pick(rng, [1, 1, 2]))):
+            name = _pick(rng, [*pool, dim])
+            da.masks[name] = sc.array(dims=[dim], values=rng.random(n) < 0.3, unit=None)
+        tags.append('mask')
+    if rng.random() < 0.06:
+        da.masks[_pick(rng, [pdim, 'bad', dim])] = sc.scalar(bool(rng.random() < 0.5))
+        tags.append('scalar_mask')
+    return da, kw, '+'.join(sorted(set(tags))) or 'plain'
+
+
+def collision_cases(rng):
+    """The enumerated part: one clean series (exactly constant levels, so the drift guard cannot fire),
+    presented with every combination of output-dimension choice and colliding attachment."""
+    dim = _pick(rng, DIMS)
+    lens = [int(_pick(rng, [3, 4, 6, 9])) for _ in range(int(rng.integers(2, 5)))]
+    # isolated points between the levels: every level is bounded by two steep slopes
+    level = np.concatenate([np.r_[np.full(ln, 16.0 * (2 * i + 1) * (-1) ** i), 1000.0 * (i + 1)]
+                            for i, ln in enumerate(lens)])
+    n = len(level)
+    x = np.cumsum(rng.choice([1.0, 2.0, 3.0], size=n))
+    base = sc.DataArray(sc.array(dims=[dim], values=level, unit='Hz'),
+                        coords={dim: sc.array(dims=[dim], values=x, unit='s')})
+    kw0 = {'atol': sc.scalar(0.25, unit='Hz/s'), 'min_n_points': int(_pick(rng, [1, 2, 3]))}
+    aux_names = ['setpoint', 'custom']
+    out = []
+    for pd in (None, 'custom', dim, 'setpoint', 'group'):
+        kw = dict(kw0) if pd is None else dict(kw0, plateau_dim=pd)
+        pdim = pd or 'plateau'
+        # (1) every used name at once as a per-point coordinate, one dtype kind after the other
+        da = base.copy()
+        names = [nm for nm in dict.fromkeys([pdim, 'plateau', *aux_names, *USED_NAMES]) if nm != dim]
+        for j, nm in enumerate(names):
+            da.coords[nm] = _aux_values(rng, AUX_KINDS[j % len(AUX_KINDS)], dim, n)
+        for nm in (pdim, dim, 'plateau', 'm'):
+            da.masks[nm] = sc.array(dims=[dim], values=rng.random(n) < 0.3, unit=None)
+        da.masks['whole'] = sc.scalar(False)
+        da.coords['whole'] = _scalar_aux(rng)
+        out.append((da, kw, f'all names, plateau_dim={"default" if pd is None else "data dim" if pd == dim else pd}'))
+        # (2) only the one coordinate that is named like the output dimension
+        if pdim != dim:
+            da = base.copy()
+            da.coords[pdim] = _aux_values(rng, _pick(rng, AUX_KINDS), dim, n)
+            out.append((da, kw, 'single colliding coordinate'))
+        # (3) a series-wide coordinate of that name (documented nowhere: observed, counted)
+            da = base.copy()
+            da.coords[pdim] = _scalar_aux(rng)
+            da.coords['other'] = _scalar_aux(rng)
+            out.append((da, kw, 'scalar coordinate named like the output dimension'))
+    return out, dim
+
+
 def gen_frequencies(rng):
     """Direct filter_in_phase case."""
     fk = _pick(rng, ['float64', 'float64', 'float64', 'float64', 'int64', 'float32'])
@@ -1079,6 +1318,11 @@ def requirements(tier):
             'tiny frequency (|f/ref| < rtol/2)', 'integer multiple (|n| >= 2)',
             'integer divisor only (multiple test fails)', 'out of phase (decided remove)',
             'in situ: find -> collapse -> filter',
+            'aux coordinate carried', 'aux coordinate named like the default output dimension',
+            'aux coordinate named like a user-given plateau_dim', 'plateau_dim equal to the data dimension',
+            'aux coordinate of non-numeric dtype', 'aux coordinate with variances',
+            'per-point mask carried', 'mask named like the output or data dimension',
+            'scalar coordinate carried', 'scalar mask carried',
         ],
     }
 
@@ -1100,6 +1344,9 @@ def run(shard, ctx):
         for i in range(shard['series']):
             rng = stream(0, i)
             da, kw, meta = gen_series(rng)
+            # attachments come from a stream of their own: the series and tolerances stay what they were
+            da, kw, deco = decorate(stream(3, i), da, kw)
+            ctx.count('attachments:' + deco)
             origin['v'] = 'direct'
             before = ctx.n_violations
             plateaus = None
@@ -1136,6 +1383,22 @@ def run(shard, ctx):
                 ctx.hit('in situ: find -> collapse -> filter')
             except Exception:  # noqa: BLE001
                 pass
+        origin['v'] = 'direct'
+        cases, cdim = collision_cases(stream(4, 0))
+        for da, kw, label in cases:
+            ctx.count('collision_case:' + label.split(',')[0])
+            origin['v'] = 'direct'
+            plateaus = None
+            try:
+                plateaus = find_plateaus(da, **kw)
+            except Exception:  # noqa: BLE001  (judged by the monitor)
+                pass
+            if plateaus is not None:
+                origin['v'] = 'pipeline'
+                try:
+                    collapse_plateaus(plateaus, coord=cdim)
+                except Exception:  # noqa: BLE001
+                    pass
         origin['v'] = 'direct'
         for i in range(shard['filters']):
             da, ref, rtol = gen_frequencies(stream(1, i))
